@@ -59,6 +59,11 @@ def check_noninterference(inp):
                                       % (k, ma.get(k), mb.get(k), clause, a, b))
         if clause == "d" and mb.get("M" + k) != ma.get("M" + k):
             raise runner.HarnessError("C06 d: override changed as well")
+    if ver == "3" and inp.get("twin_first"):
+        # the same two assignments under the OTHER minor version are scored first: a score is a function of the vector, not of
+        # what was scored before (3.0 and 3.1 differ in the modified impact formula and share everything else)
+        for x in (a, b):
+            obs.construct(ver, ("CVSS:3.1/" if pa == "CVSS:3.0/" else "CVSS:3.0/") + x[len(pa):])
     ka, oa = obs.construct(ver, a)
     kb, ob = obs.construct(ver, b)
     if ka != "ok" or kb != "ok":
@@ -152,20 +157,67 @@ def hyp_part(n_examples, shard):
         classes = ["v%s:%s" % (ver, clause)] if changed else ["no-change"]
         for m in changed:
             classes.append("v%s:%s:%s" % (ver, clause[0], m))
+        twin = ver == "3" and runner.h64(a) % 2 == 0
+        if twin:
+            classes.append("minor-twin-scored-first")
         part.count({"ver": ver, "clause": clause, "a": a, "b": b}, nontrivial=bool(changed), classes=classes)
-        part.check("noninterference", check_noninterference, {"ver": ver, "clause": clause, "a": a, "b": b}, hyp=True)
+        part.check("noninterference", check_noninterference, {"ver": ver, "clause": clause, "a": a, "b": b, "twin_first": twin}, hyp=True)
     runner.run_hyp(part, t, "C06.hyp")
+    return part
+
+
+def subgroup_part(shard, n_v4, seed):
+    """
+    clause (b) applied to WHOLE sub-groups, for every assignment of the mandatory metrics of v2 and v3 (seeded ones for v4): all
+    metrics of the sub-group are Not Defined (omitted, or written as such) in one vector and set to the declared equivalents in the
+    other, the remaining optional metrics get a random shape.  Clause (a) likewise for the Modified metrics (v3, v4).
+    """
+    import random
+    part = runner.Part(PID)
+    rng = random.Random(runner.mix(seed, 66, shard))
+    for ver in spec.VKEYS:
+        V = spec.VERS[ver]
+        if ver == "4":
+            names = list(V.mandatory)
+            bases = [dict((m, rng.choice(list(V.table[m]))) for m in names) for _ in range(n_v4)]
+        else:
+            bases = [b for i, b in enumerate(gen.all_bases(ver)) if i % runner.NPROC == shard]
+        for base in bases:
+            for prefix in V.prefixes * (40 if ver == "2" else 1):
+                for g in gen.SUBGROUPS[ver]:
+                    eq = [m for m in g if m in spec.ND_EQUIV[ver]]
+                    mod = [m for m in g if m in spec.MODIFIED.get(ver, {})]
+                    if not eq and not mod:
+                        continue
+                    d = dict(base)
+                    for other in gen.SUBGROUPS[ver]:
+                        if other is not g:
+                            gen.rng_shape(rng, ver, other, d)
+                    if rng.random() < 0.5:
+                        for m in g:
+                            d[m] = V.nd
+                    d2 = dict(d)
+                    clause = "b" if eq else "a"
+                    for m in (eq or mod):
+                        d2[m] = spec.ND_EQUIV[ver][m] if eq else base[spec.MODIFIED[ver][m]]
+                    a = ref.build(prefix, d, gen.ordered(set(d), V.order, 0))
+                    b = ref.build(prefix, d2, gen.ordered(set(d2), V.order, 0))
+                    part.count(None, nontrivial=True, distinct=True, classes=("subgroup-sweep", "subgroup-sweep:v%s:%s" % (ver, clause)))
+                    part.check("noninterference", check_noninterference, {"ver": ver, "clause": clause, "a": a, "b": b, "twin_first": bool(rng.randrange(2))})
     return part
 
 
 def run(tier, t0):
     part = runner.hyp_shards("vf.props.c06", "hyp_part", 10000 if tier == "quick" else 200000)
+    for p in runner.parallel("vf.props.c06", "subgroup_part", [(sh, 150 if tier == "quick" else 4000, runner.SEED) for sh in range(runner.NPROC)]):
+        part.merge(p)
     rule = ("accepted vector + one clause of the statement applied to a non-empty random subset of the eligible metrics: "
             "(a) Not Defined Modified metric := base value, (b) Not Defined := declared equivalent, (c) v4 supplemental "
             "add/change/remove, (d) overridden base metric changed (an override is forced into the vector), (e) temporal/"
             "environmental metrics added/changed/removed; both vectors in independent random field orders. "
-            "non-trivial = at least one metric actually changed; distinct by 64-bit hash")
-    required = ["v2:b", "v2:e-temporal+env", "v2:e-env", "v3:a", "v3:b", "v3:d", "v3:e-temporal+env", "v3:e-env",
+            "non-trivial = at least one metric actually changed; distinct by 64-bit hash. Plus clauses (a) and (b) applied to whole sub-groups for EVERY v2 / v3 assignment of the "
+            "mandatory metrics (seeded v4 ones); half of the v3 cases score the same assignments under the other minor version first")
+    required = ["subgroup-sweep:v2:b", "subgroup-sweep:v3:b", "subgroup-sweep:v3:a", "subgroup-sweep:v4:b", "subgroup-sweep:v4:a", "minor-twin-scored-first", "v2:b", "v2:e-temporal+env", "v2:e-env", "v3:a", "v3:b", "v3:d", "v3:e-temporal+env", "v3:e-env",
                 "v4:a", "v4:b", "v4:c", "v4:d"]
     # every eligible metric of every clause must have been substituted at least once
     for ver in spec.VKEYS:
